@@ -39,7 +39,9 @@ MANIFEST = {
             "at ANY defined mapping position makes validate fail with the unknown-key error positioned at exactly that key; (C06_required, "
             "C06_required_subcommand) every required key / required subcommand of every parser level of an accepted configuration is set; "
             "(C06_required_nulled / C06_required_removed) nulling / removing ONE required key at any position yields the required-key error "
-            "positioned at that key; (C06_argv_leftover) a command-line option outside the parser's option table is the error; (C06_no_lenient) "
+            "positioned at that key; (C06_append_only_list, C06_plus_key_not_consumed) a key ending in '+' is consumed as an append key ONLY when its base "
+            "is a list-typed argument of the level (ActionTypeHint.apply_appends), any other one is a foreign key covered by C06_names_key_partial; "
+            "(C06_argv_leftover) a command-line option outside the parser's option table is the error; (C06_no_lenient) "
             "the regenerated table of lenient_check brackets, the guards of validate/_parse_common/parse_known_args/parse_args are as audited. "
             "The full statements are false on the faithful model for four narrow classes, each a counterexample theorem and an open finding "
             "(leafless foreign mapping, non-selected subcommand section, dict_kwargs, scalar at a group key). The model is tied to the code on "
@@ -49,7 +51,9 @@ MANIFEST = {
                   "argparse's option matching (abbreviations are avoided by the generator). Base classes of class-typed arguments are abstract "
                   "(no implicit class_path). Mutation theorems assume noClash (no subcommand named like an argument of its level). The order in "
                   "which several simultaneous faults are reported is not modelled (single-fault mutations; accept/reject only otherwise). "
-                  "Inside nested per-class parsers a leafless foreign key in a list item is refused by the code (set_defaults) and accepted by the model.",
+                  "Inside nested per-class parsers a leafless foreign key in a list item is refused by the code (set_defaults) and accepted by the model. "
+                  "Append keys `k+` are modelled for lists of plain values; for lists of dataclasses / class instances and inside list items they are outside "
+                  "(the code refuses or crashes there: stricter, not leniency).",
 }
 
 FOREIGN = "zz9"
@@ -1494,7 +1498,7 @@ def run(ctx: Ctx):
     ctx.rule = ("generated parsers (2-5 top-level fields, depth <= 3) over typed leaves {int,str,bool,float,Optional[int],List[int]}, groups in the four "
                 "declaration styles, class-typed arguments (abstract base, 1-2 subclasses, nested parameters), lists of leaves/dataclasses/classes and "
                 "subcommands; one valid configuration per parser; every single-fault mutation (foreign key - an unrelated name, truncations of the defined sibling keys (proper string prefixes) and extensions of them - at every mapping position incl. next to "
-                "class_path, inside init_args, list items, sections; required key removed / nulled; group or section holding required keys removed; "
+                "class_path, inside init_args, list items, sections; keys ending in '+' at every position: unrelated name+, misspelt list key+, '+' on an argument that is not a list (all to be rejected naming the key, either spelling) and the legitimate append on a list argument (to be accepted); required key removed / nulled; group or section holding required keys removed; "
                 "required subcommand removed) through channels {parse_object, parse_string json/yaml, parse_path/--cfg file, argv, environment "
                 "variables, environment config}; non-trivial = a (parser, mutation, channel) triple that the code rejects naming the key; distinct by canonical JSON")
     ctx.assumptions = [
